@@ -47,32 +47,18 @@ Proof.
     rewrite hmax_app, (hmax_at a X HX), (IH (S a) HX). lia.
 Qed.
 
-Lemma str_ok_target : forall k W, tdepth W < k -> str_ok W = true ->
-  exists n, sub W (down_str W) = Some (TArray n (TScalar 1)) /\ in_bound n 0 = true.
+Lemma hmax_at_cons : forall k r E, E <> [] -> hmax (map (at_ (k :: r)) E) = S k.
 Proof.
-  induction k as [|k IH]; intros W Hd H; [lia|].
-  destruct W as [k0|n e|ms|ms]; cbn [str_ok] in H; try discriminate.
-  - apply andb_prop in H. destruct H as [Hca Hb]. cbn [down_str]. rewrite Hca. cbn [sub].
-    cbn [is_char_array] in Hca. destruct e as [[|[|k1]]| | |]; try discriminate. exists n. split; [reflexivity|exact Hb].
-  - destruct ms as [|m ms]; [discriminate|]. cbn [down_str sub child nth_error].
-    apply IH; [cbn [tdepth fold_right] in Hd; lia|exact H].
-  - destruct ms as [|m ms]; [discriminate|]. cbn [down_str sub child nth_error].
-    apply IH; [cbn [tdepth fold_right] in Hd; lia|exact H].
+  intros k r E. induction E as [|e E IH]; intro H; [exfalso; apply H; reflexivity|].
+  cbn [map hmax fold_right]. fold (hmax (map (at_ (k :: r)) E)).
+  assert (He : head1 (event_path (at_ (k :: r) e)) = S k) by (destruct e; reflexivity). rewrite He.
+  destruct E as [|e' E]; [cbn; lia|]. rewrite IH by discriminate. lia.
 Qed.
 
-Lemma spec_init_nonempty : forall U p v, ok_init U p v = true -> fst (spec_init U p v) <> [].
+Lemma range_events_nonempty : forall e v a b, a <= b -> fst (spec_init e [] v) <> [] -> range_events e v a b <> [].
 Proof.
-  intros U p v H. destruct v as [x|s|l]; cbn [ok_init] in H; try discriminate.
-  - destruct s as [|c s]; [discriminate|]. destruct (sub U p) as [W|] eqn:HW; [|discriminate].
-    destruct (str_ok_target (S (tdepth W)) W ltac:(lia) H) as [n [Hs Hb]].
-    cbn [spec_init fst]. pose proof (str_target_app p U W [] HW) as Ht. rewrite app_nil_r in Ht. cbn [str_target] in Ht.
-    rewrite Ht, sub_app, HW, Hs. cbn [array_bound string_events]. rewrite Hb. discriminate.
-  - cbn [spec_init]. destruct (sub U p) as [[k|n e|ms|ms]|]; try discriminate.
-    + destruct l as [|ds v' tl]; [discriminate|]. destruct ds as [|d0 ds']; [|discriminate].
-      destruct v' as [x|s|l']; try discriminate. destruct tl; [|discriminate]. cbn [spec_init fst]. discriminate.
-    + destruct l as [|[|d0 ds'] [x|s|l'] [|ds2 v2 tl2]]; try destruct (is_char_array (TArray n e)); cbn [fst]; discriminate.
-    + destruct l as [|[|d0 ds'] [x|s|l'] [|ds2 v2 tl2]]; cbn [is_char_array fst]; discriminate.
-    + destruct l as [|[|d0 ds'] [x|s|l'] [|ds2 v2 tl2]]; cbn [is_char_array fst]; discriminate.
+  intros e v a b Hle HX. unfold range_events. replace (S b - a) with (S (b - a)) by lia. cbn [seq flat_map].
+  destruct (fst (spec_init e [] v)) as [|x X]; [congruence|discriminate].
 Qed.
 
 Lemma next_nonempty : forall U p r, next U p = Some r -> r <> [].
@@ -95,6 +81,15 @@ Qed.
 
 Definition restrict (n : nat) (c : option path) : option path :=
   match c with Some (i :: r) => if i <? n then c else None | _ => c end.
+
+Lemma next_restrict : forall e n i r, i < n ->
+  next (TArray (Some n) e) (i :: r) = restrict n (next (TArray None e) (i :: r)).
+Proof.
+  intros e n i r Hi. assert (Hib : i <? n = true) by (apply Nat.ltb_lt; exact Hi).
+  cbn [next child in_bound]. rewrite Hib. destruct (next e r) as [q'|].
+  - cbn [restrict]. rewrite Hib. reflexivity.
+  - cbn [nxt in_bound restrict]. destruct (S i <? n); reflexivity.
+Qed.
 
 (* one item of the braced list of an unbounded array: its events lie under one element i, and the same item
    in the array of length n > i behaves the same *)
@@ -143,7 +138,7 @@ Proof.
     destruct (Hmain i r Hok) as [X [c' [H1 [H2 [H3 [H4 H5]]]]]].
     exists i, (map (at_ [i]) X), c'. split; [exact H1|]. split; [exact (hmax_at i X H2)|]. split; [exact H3|]. split; [exact H4|].
     intro Hi. cbn [restrict]. assert (Hib : i <? n = true) by (apply Nat.ltb_lt; exact Hi). rewrite Hib. apply H5. exact Hi.
-  - destruct (ok_items_desig Winf c d0 ds' v tl Hok) as [[p [Hp [Hnr Hokp]]]|Hrange].
+  - destruct (ok_items_desig Winf c d0 ds' v tl Hok) as [[p [Hp [Hnr Hokp]]]|[Hrange|Hnest]].
     2: { (* [a ... b] = v *)
       destruct Hrange as [a [b [-> [-> [Hr [Hokb Hoktl]]]]]].
       destruct (spec_items_range None e a b v tl c Hr Hokb) as [Hsr Hsnd]. fold Winf in Hsr, Hsnd. rewrite Hsnd in Hoktl.
@@ -166,7 +161,29 @@ Proof.
       { cbn [next child Wn Winf in_bound]. rewrite Hbb. cbn [next nxt in_bound restrict]. destruct (S b <? n); reflexivity. }
       split.
       - rewrite HsrN, Hnext. reflexivity.
-      - cbn [ok_items]. rewrite HrN, HokbN, HsndN, Hnext. reflexivity. }
+      - pose proof (ok_items_range_tail Wn (restrict n c) [] a b [] (Some n) e v tl eq_refl eq_refl eq_refl HrN Hoke) as HokN.
+        cbn [app] in HokN. rewrite HokN, Hnext. reflexivity. }
+    2: { (* [k] <plain designators> [a ... b] = v *)
+      destruct Hnest as [ds1 [a [b [p1 [n0 [e0 [-> [Hnr1 [Ht1 [Hs1 [Hr [Hoke Hoktl]]]]]]]]]]]].
+      pose proof (spec_items_range_tail Winf c (d0 :: ds1) a b p1 n0 e0 v tl Hnr1 Ht1 Hs1 Hr Hoke) as Hspec.
+      destruct d0 as [k|a0 b0|m]; [|cbn [no_range forallb] in Hnr1; discriminate|cbn [targets Winf] in Ht1; discriminate].
+      cbn [targets Winf in_bound] in Ht1. destruct (map_cons_singleton k _ p1 Ht1) as [p1' [Ht1' ->]].
+      pose proof Hr as Hr'. cbn [range_ok] in Hr'. apply andb_prop in Hr'. destruct Hr' as [Hab _].
+      apply andb_prop in Hab. destruct Hab as [Hle _]. apply Nat.leb_le in Hle.
+      assert (HRE : range_events e0 v a b <> []).
+      { apply range_events_nonempty; [exact Hle|apply spec_init_nonempty; exact Hoke]. }
+      exists k, (map (at_ (k :: p1')) (range_events e0 v a b)), (next Winf ((k :: p1') ++ [b])).
+      split; [exact Hspec|]. split; [apply hmax_at_cons; exact HRE|].
+      split; [apply cursor_ok_next|]. split; [exact Hoktl|].
+      intro Hk. assert (Hkb : k <? n = true) by (apply Nat.ltb_lt; exact Hk).
+      assert (HtN : targets Wn (DIndex k :: ds1) = [k :: p1']).
+      { cbn [targets Wn in_bound]. rewrite Hkb. cbn [no_range forallb andb] in Hnr1. rewrite Ht1'. reflexivity. }
+      assert (HsN : sub Wn (k :: p1') = Some (TArray n0 e0)).
+      { cbn [sub child Wn in_bound]. rewrite Hkb. cbn [sub child Winf in_bound] in Hs1. exact Hs1. }
+      pose proof (spec_items_range_tail Wn (restrict n c) (DIndex k :: ds1) a b (k :: p1') n0 e0 v tl Hnr1 HtN HsN Hr Hoke) as HspecN.
+      pose proof (ok_items_range_tail Wn (restrict n c) (DIndex k :: ds1) a b (k :: p1') n0 e0 v tl Hnr1 HtN HsN Hr Hoke) as HokN.
+      cbn [app] in HspecN, HokN |- *. unfold Wn, Winf in *. rewrite (next_restrict e n k (p1' ++ [b]) Hk) in HspecN, HokN.
+      split; [exact HspecN|exact HokN]. }
     destruct d0 as [k|a b|m]; [|cbn [no_range forallb] in Hnr; discriminate|cbn [targets Winf] in Hp; discriminate].
     cbn [targets Winf in_bound] in Hp. destruct (map_cons_singleton k _ p Hp) as [p' [Hp' ->]].
     destruct (Hmain k p' Hokp) as [X [c' [H1 [H2 [H3 [H4 H5]]]]]].
@@ -177,7 +194,7 @@ Proof.
     { cbn [targets Wn in_bound]. rewrite Hkb, Hp'. reflexivity. }
     destruct (H5 Hk) as [H6 H7]. split.
     + rewrite (spec_items_desig Wn _ (DIndex k) ds' v tl (k :: p') HpN). exact H6.
-    + rewrite <- H7. cbn [ok_items]. rewrite HpN. cbn [no_range forallb] in Hnr |- *. rewrite Hnr. reflexivity.
+    + rewrite <- H7. apply (ok_items_desig_single Wn _ (DIndex k) ds' v tl (k :: p') Hnr HpN).
 Qed.
 
 Lemma bounded_transfer : forall e n l c,
@@ -226,6 +243,7 @@ Section Count.
   Hypothesis HI2 : I2_ok I2c d.
   Hypothesis HD : D_ok Dc d.
   Hypothesis HDs : D_single Dc d.
+  Hypothesis HDr : D_range_ok Dc d.
 
   (* count_array_init_elements: the loop *)
   Lemma count_ok : forall fuel e dummy i mx tok,
@@ -251,7 +269,7 @@ Section Count.
         * apply isuffix_length in Hsuf1. lia.
         * apply isuffix_idepth in Hsuf1. lia.
         * exact Hok1.
-      + destruct (ok_items_desig W _ d0 ds' v tl Hok) as [[p [Hp [Hnr Hokp]]]|Hrange].
+      + destruct (ok_items_desig W _ d0 ds' v tl Hok) as [[p [Hp [Hnr Hokp]]]|[Hrange|Hnest]].
         2: { (* [a ... b] = v: i = b *)
           destruct Hrange as [a [b [-> [-> [Hr [Hokb Hoktl]]]]]].
           destruct (spec_items_range None e a b v tl (Some [i]) Hr Hokb) as [Hsr Hsnd]. fold W in Hsr, Hsnd. rewrite Hsnd in Hoktl.
@@ -272,6 +290,31 @@ Section Count.
           - lia.
           - lia.
           - exact Hoktl. }
+        2: { (* [k] <plain designators> [a ... b] = v: i = k *)
+          destruct Hnest as [ds1 [a [b [p1 [n0 [e0 [-> [Hnr1 [Ht1 [Hs1' [Hr [Hoke Hoktl]]]]]]]]]]]].
+          pose proof (spec_items_range_tail W (Some [i]) (d0 :: ds1) a b p1 n0 e0 v tl Hnr1 Ht1 Hs1' Hr Hoke) as Hspec.
+          destruct d0 as [k|a0 b0|m]; [|cbn [no_range forallb] in Hnr1; discriminate|cbn [targets W] in Ht1; discriminate].
+          cbn [targets W in_bound] in Ht1. destruct (map_cons_singleton k _ p1 Ht1) as [p1' [Ht1' ->]].
+          cbn [no_range forallb andb] in Hnr1.
+          pose proof Hr as Hr'. cbn [range_ok] in Hr'. apply andb_prop in Hr'. destruct Hr' as [Hab _].
+          apply andb_prop in Hab. destruct Hab as [Hle _]. apply Nat.leb_le in Hle.
+          assert (HRE : range_events e0 v a b <> []).
+          { apply range_events_nonempty; [exact Hle|apply spec_init_nonempty; exact Hoke]. }
+          assert (Hsub : sub W [k] = Some e) by reflexivity.
+          assert (Hs1'' : sub e p1' = Some (TArray n0 e0)) by exact Hs1'.
+          destruct (HDr e dummy W [k] ds1 a b p1' n0 e0 v tl Hsh Hwf Hsub Hde Hnr1 Ht1' Hs1'' Hr Hoke Hoktl)
+            as [E1 [tok1 [Hr1 [HE1 [Hs1 [Hok1 Hsuf1]]]]]].
+          assert (Hnext : next W [k] = Some [S k]) by reflexivity. rewrite Hnext in Hs1, Hok1.
+          cbn [count_loop].
+          rewrite Hr1.
+          rewrite (IH e (replay dummy E1) (S k) (Nat.max mx (S k)) tok1).
+          - cbn [app] in Hspec, Hs1. fold (range_events e0 v a b) in Hspec. rewrite Hspec, Hs1, hmax_app, (hmax_at k E1 HE1).
+            f_equal. symmetry. apply Nat.max_assoc.
+          - apply shaped_replay. exact Hsh.
+          - exact Hwf.
+          - apply isuffix_length in Hsuf1. lia.
+          - apply isuffix_idepth in Hsuf1. lia.
+          - exact Hok1. }
         destruct d0 as [k|a b|m]; [|cbn [no_range forallb] in Hnr; discriminate|cbn [targets W] in Hp; discriminate].
         cbn [targets W in_bound] in Hp. destruct (map_cons_singleton k _ p Hp) as [p' [Hp' ->]].
         cbn [no_range forallb andb] in Hnr.
